@@ -16,8 +16,6 @@ import (
 //   oracle         : applying the same reversal (ordering "random", same seed => same criteria) twice restores
 //                    the data: exactly on dyadic grids, else 1e-9 relative; input state untouched
 
-
-
 func d1IsGridValue(v float64) bool { return math.Abs(v) <= 1<<20 && v*4 == math.Trunc(v*4) }
 
 // d1AllOnGrid: every value and every declared range bound is a multiple of 1/4 (mirroring is then exact)
